@@ -74,6 +74,15 @@ func CloneFunc(fn func(interface{}) (interface{}, error)) Cloner {
 		if src.Type() != dest.Type() {
 			return fmt.Errorf("incompatible types: %v != %v", src.Type(), dest.Type())
 		}
+		if pmIn, ok := in.(proto.Message); ok {
+			if pmOut, ok := out.(proto.Message); ok {
+				// all dynamic messages share one Go type: assigning one of
+				// another message type would silently change what out is
+				if nIn, nOut := proto.MessageName(pmIn), proto.MessageName(pmOut); nIn != nOut {
+					return fmt.Errorf("cannot copy a %s into a %s", nIn, nOut)
+				}
+			}
+		}
 		if !dest.CanSet() {
 			return fmt.Errorf("unable to set destination: %v", reflect.ValueOf(out).Type())
 		}
